@@ -42,11 +42,11 @@ PROPS["C29"] = dict(
 PROPS["C27"] = dict(
     title="Page labels follow the numbering styles of the specification",
     level="exploration",
-    technique="differential monitor: labels computed by the library for enumerated numbers (every style, 1..N) and for generated range sets x boundary indices, judged offline against an independent formatter written from ISO 32000-1 §12.4.2; panic monitor",
+    technique="differential monitor: labels computed by the library for enumerated numbers (every style, 1..N) and for generated range sets x boundary indices, judged offline against an independent formatter written from ISO 32000-1 §12.4.2; the tree as written (PageLabelTree::to_dict, the /Nums entries that go into the document) is read by the same independent labeller and must give the same labels at the probed indices; panic monitor",
     stages=[rust(), py("pyref.checks.c27")],
     rule="(a) every style x every number 1..N (3000 quick / 20000 thorough) through a one-range tree; (b) random trees of 1-6 ranges (styles, prefixes, start values incl. 26/27/52/53/702/703/2^31/u32::MAX) probed at indices around every range boundary. A case is non-trivial when the governing number exceeds 26 (multi-letter / multi-symbol territory) and is counted once per (case, index)",
     assumptions=["reference formatter pyref/labels.py; Roman numerals above 3999 follow the repeated-M convention"],
-    floors={"quick": {"evaluations": 100_000, "distinct": 20_000}, "thorough": {"evaluations": 1_000_000, "distinct": 200_000}},
+    floors={"quick": {"evaluations": 100_000, "distinct": 20_000, "counters": {"written_trees_read_back": 10000}}, "thorough": {"evaluations": 1_000_000, "distinct": 200_000}},
     level_text="Enumerated for single ranges up to N, sampled for range sets; each label is compared with an independent formatter.",
     level_note="Trusted base: pyref/labels.py (hand vectors). The written /PageLabels number tree is covered with the document checks (C02/C03) once an independent reader parses it.",
 )
